@@ -12,16 +12,27 @@ for lg in sorted(glob.glob('/tmp/seed_all*.log')):
     for l in open(lg):
         m=re.match(r'SEEDED (\S+) (\S+): (DETECTED|MISSED|INCONCLUSIVE)(.*)',l)
         if m: det.setdefault(m.group(1),{})[m.group(2)]=(m.group(3),m.group(4).strip()[:600])
+NOTES={'C12-m2':'after fix 5fc2dab (which rewrote the mutated line) this patch no longer applies; the same change carried over to the repaired tree is C12-m2r. The MISSED result is from before the worker-loop obligations existed.'}
 props={json.loads(l)['id']:json.loads(l)['title'] for l in open('/verif/properties.jsonl')}
 for d in sorted(os.listdir(V)):
     p=os.path.join(V,d)
     if not os.path.isdir(p): continue
     pid=d.split('-')[0]
     notes=open(os.path.join(p,'notes.md')).read() if os.path.exists(os.path.join(p,'notes.md')) else ''
+    # results recorded in an earlier session survive when the /tmp logs are gone
+    try:
+        prev=json.load(open(os.path.join(p,'meta.json')))
+    except Exception:
+        prev={}
+    if d not in conf and prev.get('confirmed_by_me',{}).get('result') in ('CONFIRMED','NOT CONFIRMED'):
+        conf[d]=(prev['confirmed_by_me']['result'],prev['confirmed_by_me'].get('details',''))
+    for k,v in prev.get('checks_run_against_it',{}).items():
+        det.setdefault(d,{}).setdefault(k,(v['outcome'],v.get('detail','')))
     meta={
       'id':d,'breaks_property':pid,'property_title':props.get(pid),
       'needs_to_manifest': (re.search(r'(?is)(trigger|manifest)[^\n]*\n(.{0,700})',notes).group(2).strip() if re.search(r'(?is)(trigger|manifest)',notes) else 'see notes.md'),
       'confirmed_by_me': {'result':conf.get(d,('?',''))[0],'what_i_ran':'lib/confirm_mutant.sh: git worktree of /repo HEAD + git apply patch.diff; cargo test --lib --offline (expect 84 passed / 3 known failures); demo.rs appended to the target file, cargo test --lib --offline <filter>: must FAIL with the patch and PASS without it','details':conf.get(d,('', ''))[1]},
+      **({'note':NOTES[d]} if d in NOTES else {}),
       'checks_run_against_it': {k:{'outcome':v[0],'detail':v[1]} for k,v in det.get(d,{}).items()},
     }
     json.dump(meta,open(os.path.join(p,'meta.json'),'w'),indent=1)
